@@ -25,6 +25,7 @@ func main() {
 	dualContour(r)
 	dcShortcuts(r)
 	estimator(r)
+	estimator2d(r)
 
 	r.Require("mc.meshes", 20)
 	r.Require("mc.lattice_points_classified", 10000)
